@@ -32,7 +32,7 @@ from lv import core, model, gen, drive, recgen
 from lv.props import common
 
 ID = 'C19'
-BUDGET = {'quick': 560, 'thorough': 12000}        # base programs; <= 6 corruptions each
+BUDGET = {'quick': 1100, 'thorough': 12000}        # base programs; <= 6 corruptions each
 WALL = {'quick': 3000, 'thorough': 14400}      # backstop only (shared machine)
 RULE = ('valid base programs from five profiles (core and aggregation profile of the typed '
         'generator lv/gen.py; `inject`: chains of single-rule predicates that the compiler '
